@@ -95,10 +95,11 @@ def parse_model(path):
 
 def points_only(proj):
     """stable part of a projection: actor@point and item classes, no numbers"""
+    import re
     out = []
     for it in proj.split(" "):
         if "@" in it:
-            out.append(it)
+            out.append(re.sub(r"^c\d+@", "c@", it))
         else:
             out.append(it.split(":")[0] + (":" + it.split(":")[1] if it.startswith("W:") and ":" in it else ""))
     return ",".join(out)
